@@ -110,14 +110,15 @@ func propC19(c *ctx) error {
 		for k := r.n(4); k > 0; k-- {
 			d := dirs[r.n(len(dirs))]
 			if strings.Count(d, "/") < 2 {
-				nd := strings.TrimPrefix(d+"/"+r.pick([]string{"a", "b", "part", "x.html"}), "/")
+				nd := strings.TrimPrefix(d+"/"+r.pick([]string{"a", "b", "part", "x.html", ".dot", ".git"}), "/")
 				dirs = append(dirs, nd)
 			}
 		}
 		nf := r.n(7)
 		for k := 0; k < nf; k++ {
 			d := dirs[r.n(len(dirs))]
-			name := r.pick([]string{"index", "a", "b", "main", "z"}) + r.pick([]string{".html", ".html", ".html", ".txt", ".htm", ".html.bak"})
+			// (names that begin with a dot are names like any other: .gitkeep beside templates, .partial.html IS a template)
+			name := r.pick([]string{"index", "a", "b", "main", "z", ".gitkeep", ".partial", ".#index", "-", "0"}) + r.pick([]string{".html", ".html", ".html", ".txt", ".htm", ".html.bak", ".html"})
 			p := strings.TrimPrefix(d+"/"+name, "/")
 			isDir := false
 			for _, dd := range dirs {
